@@ -55,7 +55,7 @@ theorem validRune_lt (r : Nat) (h : validRune r = true) : r < 4294967296 := by
 
 /-- one escaped character is decoded to that character -/
 theorem decode_escU (f : Nat) (r : Rune) (rest : List Nat) (d : Dec) (hv : validRune r = true) :
-    decode (f + 1) (escU r ++ rest) d = decode f rest { d with chars := d.chars ++ [r] } := by
+    decode (f + 1) (escU r ++ rest) d = decode f rest { d with chars := d.chars ++ [(r, true)] } := by
   have hd : ∀ k, hexChar (r / k % 16) < 128 := fun k => hexChar_ascii _ (Nat.mod_lt _ (by decide))
   have hd0 : hexChar (r % 16) < 128 := hexChar_ascii _ (Nat.mod_lt _ (by decide))
   have hun : unquote (85 :: hex8 r) = r := by
@@ -75,7 +75,7 @@ theorem decode_escU (f : Nat) (r : Rune) (rest : List Nat) (d : Dec) (hv : valid
 
 /-- a plain dash is decoded to a dash -/
 theorem decode_dash (f : Nat) (rest : List Nat) (d : Dec) :
-    decode (f + 1) (45 :: rest) d = decode f rest { d with chars := d.chars ++ [45] } := by
+    decode (f + 1) (45 :: rest) d = decode f rest { d with chars := d.chars ++ [(45, false)] } := by
   simp only [decode]
   rw [readRune_ascii 45 _ (by decide)]
   simp
@@ -96,14 +96,14 @@ theorem spellChars_length (cs : List Rune) : (spellChars cs).length = 10 * cs.le
   | cons c cs ih => simp [spellChars, escU, hex8, ih]; omega
 
 theorem decode_chars (cs : List Rune) (hv : ∀ c ∈ cs, validRune c = true) (f : Nat) (rest : List Nat) (d : Dec) :
-    decode (f + cs.length) (spellChars cs ++ rest) d = decode f rest { d with chars := d.chars ++ cs } := by
+    decode (f + cs.length) (spellChars cs ++ rest) d = decode f rest { d with chars := d.chars ++ markChars cs } := by
   induction cs generalizing d with
-  | nil => simp [spellChars]
+  | nil => simp [spellChars, markChars]
   | cons c cs ih =>
     simp only [spellChars, List.length_cons, List.append_assoc]
     rw [show f + (cs.length + 1) = (f + cs.length) + 1 by omega, decode_escU _ _ _ _ (hv c List.mem_cons_self)]
     rw [ih (fun x hx => hv x (List.mem_cons_of_mem _ hx))]
-    simp
+    simp [markChars]
 
 theorem decode_ranges (rs : List (Rune × Rune)) (hv : ∀ p ∈ rs, validRune p.1 = true ∧ validRune p.2 = true)
     (f : Nat) (rest : List Nat) (d : Dec) :
@@ -183,9 +183,9 @@ theorem decode_body (ns : List (List Rune)) (cs : List Rune) (rs : List (Rune ×
     (hn : ∀ n ∈ ns, NameOK n) (hc : ∀ c ∈ cs, validRune c = true)
     (hr : ∀ p ∈ rs, validRune p.1 = true ∧ validRune p.2 = true) (extra : Nat) :
     decode (extra + 3 * rs.length + cs.length + ns.length) (spellNames ns ++ (spellChars cs ++ spellRanges rs))
-      { chars := [], classes := [] } = { chars := cs ++ printRanges rs, classes := ns } := by
+      { chars := [], classes := [] } = { chars := markChars cs ++ printRanges rs, classes := ns } := by
   rw [decode_names ns hn, decode_chars cs hc]
-  have := decode_ranges rs hr extra [] { chars := [] ++ cs, classes := [] ++ ns }
+  have := decode_ranges rs hr extra [] { chars := [] ++ markChars cs, classes := [] ++ ns }
   simp only [List.append_nil] at this
   rw [this, decode_nil]
   simp
@@ -267,11 +267,11 @@ theorem body_nil (ns : List (List Rune)) (cs : List Rune) (rs : List (Rune × Ru
       | cons p rs => obtain ⟨lo, hi⟩ := p; simp [spellNames, spellChars, spellRanges, escU] at h
 
 /-- **C03 — class round trip, whole function.** For every descriptor (ignore-case flag, inverted flag, class names, single
-    characters, ranges) with valid code points, no single `-`, no range starting with `-` and well-formed names, the model of
-    `(*ast.CharClassMatcher).parse` reads the canonical spelling back as exactly that descriptor. -/
+    characters, ranges) with valid code points and well-formed names, the model of `(*ast.CharClassMatcher).parse` reads the
+    canonical spelling back as exactly that descriptor - `-` among the characters and as a range bound included. -/
 theorem parse_spell (ic inv : Bool) (ns : List (List Rune)) (cs : List Rune) (rs : List (Rune × Rune))
-    (hn : ∀ n ∈ ns, NameOK n) (hc : ∀ c ∈ cs, validRune c = true ∧ c ≠ dash)
-    (hr : ∀ p ∈ rs, validRune p.1 = true ∧ validRune p.2 = true ∧ p.1 ≠ dash) :
+    (hn : ∀ n ∈ ns, NameOK n) (hc : ∀ c ∈ cs, validRune c = true)
+    (hr : ∀ p ∈ rs, validRune p.1 = true ∧ validRune p.2 = true) :
     parse (spell ic inv ns cs rs) =
       some { ignoreCase := ic, inverted := inv, chars := cs, ranges := flat rs, classes := ns } := by
   generalize hb : spellNames ns ++ (spellChars cs ++ spellRanges rs) = body
@@ -285,15 +285,15 @@ theorem parse_spell (ic inv : Bool) (ns : List (List Rune)) (cs : List Rune) (rs
     obtain ⟨rfl, rfl, rfl⟩ := body_nil ns cs rs hb
     simp [flat]
   | cons x rest =>
-    have hbody : decode body.length body { chars := [], classes := [] } = { chars := cs ++ printRanges rs, classes := ns } := by
+    have hbody : decode body.length body { chars := [], classes := [] } =
+        { chars := markChars cs ++ printRanges rs, classes := ns } := by
       have hl := body_length ns cs rs
       rw [hb] at hl
       obtain ⟨extra, he⟩ : ∃ extra, body.length = extra + 3 * rs.length + cs.length + ns.length :=
         ⟨body.length - (3 * rs.length + cs.length + ns.length), by omega⟩
       rw [he, ← hb]
-      exact decode_body ns cs rs hn (fun c h => (hc c h).1) (fun p h => ⟨(hr p h).1, (hr p h).2.1⟩) extra
-    have hext : extract (cs ++ printRanges rs) = (cs, flat rs) :=
-      C03_class_roundtrip_partial cs rs (fun c h => (hc c h).2) (fun p h => (hr p h).2.2)
+      exact decode_body ns cs rs hn hc hr extra
+    have hext : extract (markChars cs ++ printRanges rs) = (cs, flat rs) := C03_class_extraction_roundtrip cs rs
     rw [← hbe, hbody]
     simp [hbe, hext]
 
